@@ -120,6 +120,18 @@ def gen_stream(rng, columns=None, players=None, n=None, keysounds=None, types=NO
                     out.append([p, bb.numerator, bb.denominator, c, rng.choice(types), ks])
                     made += 1
             measure += 1 + (rng.randint(0, maxgap) if rng.random() < 0.25 else 0)
+    if pl and rng.random() < 0.15 and columns >= 1:
+        # two single-note measures with the same column/type whose beats print alike to three decimals
+        p = pl[-1]
+        last = max([n[1] // n[2] // 4 for n in out if n[0] == p] + [-1])
+        k = rng.randint(1, 47)
+        a = Fraction(k, 48)
+        b = Fraction(round(float(a) * 1000), 1000)
+        if a != b and f"{float(a):.3f}" == f"{float(b):.3f}":
+            c, t = rng.randrange(columns), rng.choice(types)
+            for i, x in enumerate((a, b)):
+                bb = 4 * (last + 1 + i * rng.randint(1, 2)) + x
+                out.append([p, bb.numerator, bb.denominator, c, t, None])
     return columns, out
 
 
@@ -127,7 +139,7 @@ def gen_single_stream(rng, columns=None, rows=None, types="1234M", density=0.5, 
     """Single-player stream on a row grid (quarter/eighth beats), heavy on holds: [[num, den, col, char, ks]]."""
     columns = columns or rng.randint(1, 6)
     rows = rows or rng.choice([3, 6, 10, 20, 40])
-    step = rng.choice([Fraction(1), Fraction(1, 2), Fraction(1, 4), Fraction(1, 3)])
+    step = rng.choice([Fraction(1), Fraction(1, 2), Fraction(1, 4), Fraction(1, 3), Fraction(1, 64), Fraction(1, 100), Fraction(1, 96)])
     out = []
     for r in range(rows):
         b = step * r
